@@ -75,6 +75,14 @@ class MemFS:
             if name in NOFAULT_STEPS:
                 return None
             raise _err(act[1], args[0] if args else None)
+        if act[0] == "deny":
+            # the path became inaccessible (search permission revoked, device error): os.path.isfile/isdir/exists swallow the stat error
+            # and answer False; every other call raises
+            if name in ("isfile", "isdir", "exists"):
+                return ("query_false",)
+            if name in NOFAULT_STEPS:
+                return None
+            raise _err(act[1], args[0] if args else None)
         if act[0] == "torn":
             if name == "write":
                 return act
@@ -331,17 +339,20 @@ class MemFS:
 
     def isfile(self, p):
         p = self._norm(p)
-        self.tick("isfile", p)
+        if self.tick("isfile", p) is not None:
+            return False
         return self._q_isfile(p)
 
     def isdir(self, p):
         p = self._norm(p)
-        self.tick("isdir", p)
+        if self.tick("isdir", p) is not None:
+            return False
         return self._q_isdir(p)
 
     def exists(self, p):
         p = self._norm(p)
-        self.tick("exists", p)
+        if self.tick("exists", p) is not None:
+            return False
         return self._q_exists(p)
 
     def islink(self, p):
